@@ -401,7 +401,7 @@ def r5_walker_wiring(ctx):
     # --- x12n_document restarts the counts at every ISA / GS
     fn = ctx.func('x12n_document', 'x12n_document')
     calls = [(norm(c.args[0]), norm(c.args[1])) for c in A.calls_in(fn) if A.call_target(c) == ('walker', 'forceWalkCounterToLoopStart')]
-    ok = calls == [("'/ISA_LOOP'", "'/ISA_LOOP/ISA'"), ("'/ISA_LOOP/GS_LOOP'", "'/ISA_LOOP/GS_LOOP/GS'")]
+    ok = sorted(calls) == sorted([("'/ISA_LOOP'", "'/ISA_LOOP/ISA'"), ("'/ISA_LOOP/GS_LOOP'", "'/ISA_LOOP/GS_LOOP/GS'")])
     yield Ob('x12n_document:x12n_document restarts loop counts at ISA and GS', ok, ctx.floc(fn), '' if ok else 'calls %s' % calls)
     fn = ctx.func('map_walker', 'walk_tree.forceWalkCounterToLoopStart')
     seq = [(A.call_target(c)[1], norm(c.args[0])) for c in A.calls_in(fn)]
